@@ -68,7 +68,11 @@ RESET = "\033[0m"
 
 def location_or_default(location):
     if not location:
-        return parser_types.SourceLocation((0, 0), (0, 0))
+        # A SourceLocation without coordinates is falsy, but it can still carry
+        # the is_synthetic flag, which decides whether the error is shown.
+        return parser_types.SourceLocation(
+            (0, 0), (0, 0), is_synthetic=bool(getattr(location, "is_synthetic", False))
+        )
     return location
 
 
